@@ -637,3 +637,30 @@ Proof.
   exists "CN", "". split; [now left|].
   intros H. repeat (destruct H as [H|H]; [discriminate H|]). destruct H.
 Qed.
+
+(* ====================================================================== *)
+(* 6. the identity check never clears a trust-store failure                *)
+(* ====================================================================== *)
+
+(* the authenticity result is shared by the trust-store check and the identity
+   check: when the chain is not rooted in the trust stores, authenticity does
+   not pass whatever the identities are (wildcard included); the signature is
+   rejected iff the level enforces authenticity *)
+Theorem untrusted_never_passes : forall log ids chain v rej,
+  model (IUntrusted log ids chain) = OVerify v rej -> is_pass v = false /\ rej = negb log.
+Proof.
+  intros log ids chain v rej H. cbn [model] in H.
+  destruct (validate_ids ids); try discriminate. destruct log.
+  - inversion H. split; [|reflexivity].
+    destruct (is_pass (verify_identities ids chain)) eqn:P; [reflexivity|exact P].
+  - inversion H. auto.
+Qed.
+
+(* at level strict Verify returns before the identity check; at level audit
+   a failed identity check replaces the reported error, a passed one leaves it *)
+Theorem untrusted_result : forall log ids chain, validate_ids ids = WOk ->
+  model (IUntrusted log ids chain) =
+  if log then OVerify (if is_pass (verify_identities ids chain) then VStoreFail
+                       else verify_identities ids chain) false
+  else OVerify VStoreFail true.
+Proof. intros log ids chain V. cbn [model]. rewrite V. reflexivity. Qed.
